@@ -73,6 +73,18 @@ def log_case(rng, w, n, signed):
         k = rng.randrange(0, 70)
         x = (b ** k + rng.choice([-1, 0, 1])) % lim
         return "b^k", pat(x, W), pat(b, W)
+    if c == 7 and n >= 2:
+        # exact powers (+-1) of a MULTI-digit base with extreme digits: ilog divides by the base repeatedly, so the
+        # quotient-digit estimates of the long division see exact multiples (added after seeded change C08-r5m2)
+        B = 1 << w
+        dl = rng.randrange(2, max(3, n // 2 + 1))
+        b = sum(rng.choice([0, 1, B - 1, B // 2, B // 2 - 1, rng.randrange(B), rng.randrange(B)]) << (w * i) for i in range(dl - 1))
+        b |= rng.choice([1, 2, B // 2, B // 2 + 1, B - 1, rng.randrange(1, B)]) << (w * (dl - 1))
+        kmax = max(1, (W - 1 if signed else W) // max(1, b.bit_length()))
+        k = rng.choice([1, 2, 2, 3, kmax, max(1, kmax - 1), rng.randrange(1, kmax + 1)])
+        x = b ** k + rng.choice([-1, 0, 0, 0, 1])
+        if 0 < x < lim and 2 <= b < lim:
+            return "multi-digit-base^k", pat(x, W), pat(b, W)
     if c == 5:
         t, a = value(rng, w, n)
         return "badbase", a, rng.choice([0, 1, M - 1, M - 2])
@@ -106,6 +118,46 @@ def _gen_main(rng, tier):
                 for mode in ("dbg", "rel"):
                     yield f"ilog2 {s}{cfg} {mode} {hx(a)}", t
                     yield f"ilog10 {s}{cfg} {mode} {hx(a)}", t
+    # many exact powers of multi-digit u8-digit bases (rare quotient-digit events of the long division inside ilog
+    # have probability ~2^-8 per digit only with 8-bit digits)
+    for cfg in ["8x5", "8x7", "8x12"]:
+        w, n = wn(cfg)
+        W = w * n
+        for i in range(4000 if tier == "thorough" else 1200):
+            dl = rng.choice([2, 2, 2, 3, max(2, n // 2)])
+            b = rng.randrange(1 << (w * (dl - 1)), 1 << (w * dl))
+            if i % 3 == 0:
+                b |= 0xff                                   # low digit saturated: more add-back / clamp events
+            kmax = max(1, W // b.bit_length())
+            k = rng.choice([2, 2, kmax, rng.randrange(1, kmax + 1)])
+            x = b ** k + rng.choice([0, 0, 0, -1, 1])
+            if 0 < x < (1 << W):
+                yield f"checked_ilog u{cfg} {hx(x)} {hx(b)}", "multi-digit-base^k"
+    # root-straddle sweep: for every exponent e of a fixed set, the bases floor(root_e(limit)) + {-1, 0, 1, 2} of both
+    # limits 2^(BITS-1) and 2^BITS, both signs: a^e just below / at / just above MAX, |MIN| and 2^BITS in every
+    # configuration (deterministic; the random `straddle` class hit these only a few times per run, and seeded
+    # change C08-r5m1 needs a negative base whose odd power exceeds |MIN| by less than one top-digit unit)
+    for cfg in cfgs(tier):
+        w, n = wn(cfg)
+        if n > 40:
+            continue
+        W = w * n
+        M = 1 << W
+        for e in (2, 3, 4, 5, 6, 7, 9, 11, 15, 16, 17, 31, 33, 63, 65, W - 1, W):
+            if e < 2:
+                continue
+            for lim in (M >> 1, M):
+                r = iroot(lim, e)
+                for d in (-1, 0, 1, 2):
+                    b = r + d
+                    if b < 2:
+                        continue
+                    yield f"overflowing_pow u{cfg} {hx(b % M)} {e}", "root-straddle"
+                    yield f"overflowing_pow i{cfg} {hx(pat(-b, W))} {e}", "root-straddle"
+                    if d == 1:
+                        yield f"overflowing_pow i{cfg} {hx(b % M)} {e}", "root-straddle"
+                        yield f"checked_pow i{cfg} {hx(pat(-b, W))} {e}", "root-straddle"
+                        yield f"saturating_pow i{cfg} {hx(pat(-b, W))} {e}", "root-straddle"
     # every bit length: 2^b - 1 and 2^(b-1) (logarithm estimates from the bit length go wrong only at a few lengths)
     for cfg in (["64x16", "8x40"] if tier != "thorough" else ["64x16", "64x128", "8x40", "32x10"]):
         w, n = wn(cfg)
